@@ -36,6 +36,12 @@ def gen(rng, tier, ds):
               ("N", ("A", [probe, ("O", [bad])])), ("A", [("N", probe), ("N", bad), ("N", probe)])):
         add([wc.enc_q(0, t, [])])
         add([wc.enc_q(0, t, [b"a"])])
+    # unknown columns / group-by columns with long and non-ASCII names (they end up in error texts)
+    for name in ("列" * 30, "名前" * 40, "é" * 95, "x" * 95 + "é" * 3, "x" * 300, "a\xff\xfeb" * 20, "\U0001F436" * 25, "ab" * 47 + "é", "\n\t\"q\"" * 12):
+        nb = name.encode("utf-8", "surrogateescape") if isinstance(name, str) else name
+        add([wc.enc_q(0, ("E", nb, b"1", 0), [])])
+        add([wc.enc_q(0, probe, [nb])])
+        add([wc.enc_q(0, ("N", ("O", [probe, ("E", nb, nb, 0)])), [b"a", nb])])
     add([wc.enc_q(0, probe, [b"a"])])
     for d in ([50, 400] if tier == "quick" else [50, 400, 3000]):
         t = probe
@@ -123,6 +129,18 @@ def run(rep, scratch, tier, seed, replay=None):
     if rcp != 0:
         raise core.FrameworkError("wire harness (in-process, preloaded) exited with %d: %s" % (rcp, errp[:1200]))
     nbad += compare(rep, reqs, implp, modelp, "in-process, preloaded + LRU cache", lines, {})
+    # an index whose schema has no column at all (rows without columns; no rows): every request that
+    # names a column must be answered with an error
+    from . import dp
+    for did, rows in (("nocols", [{}, {}, {}]), ("norows", [])):
+        dse = dp.Dataset(did, rows, "empty-schema")
+        idxe = wc.make_index(scratch, dse, "c14" + did)
+        reqs_e = [("n%d" % i, qs) for i, qs in enumerate([[wc.enc_q(0, ("E", b"a", b"1", 0), [])], [wc.enc_q(0, ("N", ("E", b"a", b"1", 0)), [b"a"])], [wc.enc_q(0, ("O", []), [b"zz"])],
+                                                         [wc.enc_q(0, ("A", [("E", b"", b"", 0)]), [])], [wc.enc_q(3, ("N", ("O", [])), [])], [wc.enc_q(0, ("O", []), [])]])]
+        ie, me, rce, erre, le = wc.run_wire(scratch, dse, reqs_e, "inproc", idxe, "c14e" + did)
+        if rce != 0:
+            raise core.FrameworkError("wire harness (in-process, %s) exited with %d: %s" % (did, rce, erre[:800]))
+        nbad += compare(rep, reqs_e, ie, me, "in-process, index with an empty schema (%s)" % did, le, {})
     # against the server process: it must survive everything
     for cache, preload in (((True, True),) if tier == "quick" else ((True, True), (True, False), (False, False), (False, True))):
         srv = wc.Server(scratch, idx, cache=cache, preload=preload)
